@@ -134,7 +134,7 @@ def update_domain_and_kwargs_from_args(symbolic_cls: Type, *args, **kwargs):
                 raise ValueError(f"First non-keyword-argument to {symbolic_cls.__name__} in symbolic mode should be"
                                  f" a domain using `From()`.")
         else:
-            arg_name = init_args[i+1] # to skip `self`
+            arg_name = init_args[i + (0 if domain else 1)]  # to skip `self`, the domain is not an init argument
             kwargs[arg_name] = arg
     return domain, kwargs
 
